@@ -27,6 +27,7 @@ type SpecEnv struct {
 	callSite  bool
 	freshRefs []*Term
 	pol       int // +1: the expression is being proved, -1: assumed, 0: both
+	inOld     bool
 }
 
 func (fr *Frame) specEnv(st, old *State) *SpecEnv {
@@ -86,6 +87,11 @@ func (ex *Exec) constOf(tv types.TypeAndValue) (Value, bool) {
 func (ex *Exec) localCell(fr *Frame, obj types.Object) *Cell {
 	if fr == nil {
 		return nil
+	}
+	for alloc, cell := range fr.cells {
+		if alloc.Pos().IsValid() && alloc.Pos() == obj.Pos() {
+			return cell
+		}
 	}
 	for alloc, cell := range fr.cells {
 		if fr.allocObj(alloc) == obj {
@@ -163,6 +169,14 @@ func (ex *Exec) evalSpec(e ast.Expr, info *types.Info, env *SpecEnv, pc *Term) V
 			if o.Parent() == o.Pkg().Scope() {
 				return ex.loadGlobalVar(o, env.st, pc)
 			}
+			if env.inOld && env.fr != nil {
+				// parameters inside old() denote the values the function was entered with
+				for i, p := range env.fr.fn.Params {
+					if p.Object() == o {
+						return env.fr.paramVals[i]
+					}
+				}
+			}
 			if c := ex.localCell(env.fr, o); c != nil {
 				v, ok := env.st.cells[c.id]
 				if !ok {
@@ -203,9 +217,9 @@ func (ex *Exec) evalSpec(e ast.Expr, info *types.Info, env *SpecEnv, pc *Term) V
 		panic(fmt.Sprintf("contract: unsupported selector %s", exprString(e)))
 	case *ast.StarExpr:
 		p := ex.evalSpec(x.X, info, env, pc)
-		ex.dry++
+		ex.dry++; ex.inSpec++
 		v := ex.load(env.st, p, info.Types[e].Type, pc, token.NoPos)
-		ex.dry--
+		ex.dry--; ex.inSpec--
 		return v
 	case *ast.UnaryExpr:
 		if x.Op == token.AND {
@@ -244,8 +258,8 @@ func (ex *Exec) evalSpec(e ast.Expr, info *types.Info, env *SpecEnv, pc *Term) V
 			a = ex.evalSpec(x.X, info, env, pc)
 			b = ex.evalSpec(x.Y, info, env, pc)
 		}
-		ex.dry++
-		defer func() { ex.dry-- }()
+		ex.dry++; ex.inSpec++
+		defer func() { ex.dry--; ex.inSpec-- }()
 		ta, tb := info.Types[x.X].Type, info.Types[x.Y].Type
 		// untyped constants take the other operand's type
 		if _, isC := a.(IntV); isC {
@@ -339,8 +353,8 @@ func (ex *Exec) loadGlobalVar(o *types.Var, st *State, pc *Term) Value {
 	if !ok {
 		return FreshV(o.Type(), "global."+o.Name())
 	}
-	ex.dry++
-	defer func() { ex.dry-- }()
+	ex.dry++; ex.inSpec++
+	defer func() { ex.dry--; ex.inSpec-- }()
 	return ex.load(st, PtrV{Kind: PGlobal, Cell: ex.globalCell(g)}, o.Type(), pc, token.NoPos)
 }
 
@@ -359,9 +373,9 @@ func (ex *Exec) specField(base Value, sel *types.Selection, st *State, pc *Term)
 			np := b
 			np.Path = appendPath(b.Path, i)
 			ft := stt.Field(i).Type()
-			ex.dry++
+			ex.dry++; ex.inSpec++
 			cur = ex.load(st, np, ft, pc, token.NoPos)
-			ex.dry--
+			ex.dry--; ex.inSpec--
 		case StructV:
 			cur = b.F[i]
 		case PoisonV:
@@ -402,9 +416,9 @@ func (ex *Exec) specAddr(e ast.Expr, info *types.Info, env *SpecEnv, pc *Term) V
 			if k == len(idx)-1 {
 				return np
 			}
-			ex.dry++
+			ex.dry++; ex.inSpec++
 			cur = ex.load(env.st, np, stt.Field(i).Type(), pc, token.NoPos)
-			ex.dry--
+			ex.dry--; ex.inSpec--
 			t = stt.Field(i).Type()
 		}
 	case *ast.Ident:
@@ -529,6 +543,7 @@ func (ex *Exec) specCall(call *ast.CallExpr, info *types.Info, env *SpecEnv, pc 
 		}
 		e2 := *env
 		e2.st = env.old
+		e2.inOld = true
 		return ex.evalSpec(call.Args[0], info, &e2, pc)
 	case "implies":
 		e2 := *env
@@ -577,9 +592,9 @@ func (ex *Exec) specCall(call *ast.CallExpr, info *types.Info, env *SpecEnv, pc 
 		}
 	case "held", "rheld", "unheld":
 		p := arg(0)
-		ex.dry++
+		ex.dry++; ex.inSpec++
 		lv, ok := ex.load(env.st, p, nil, pc, token.NoPos).(LockV)
-		ex.dry--
+		ex.dry--; ex.inSpec--
 		if !ok {
 			panic("contract: held() of a non-mutex")
 		}
@@ -615,6 +630,33 @@ func (ex *Exec) specCall(call *ast.CallExpr, info *types.Info, env *SpecEnv, pc 
 	case "wirebyte":
 		i := SignExtTo64(arg(0).(IntV).T, info.Types[call.Args[0]].Type)
 		return IntV{SelectA(env.st.get("ghost|wire.bytes", SByteArr), i)}
+	case "nsenton", "nrecvon":
+		k := "send"
+		if id.Name == "nrecvon" {
+			k = "recv"
+		}
+		ch := arg(0).(ChanV)
+		return IntV{Select(env.st.get("ghost|"+k+".cnt", SArr(SRef, SBV(64))), ch.Ref)}
+	case "within":
+		// within(sub, whole): sub is a window of whole's backing array inside whole
+		a, b := arg(0).(SliceV), arg(1).(SliceV)
+		if a.St != b.St || a.St == StLocal {
+			return BoolV{False}
+		}
+		return BoolV{And(Eq(a.ID, b.ID), BVSle(b.Off, a.Off), BVSle(BVAdd(a.Off, a.Len), BVAdd(b.Off, b.Len)), BVSle(BV(0, 64), a.Len))}
+	case "offsetin":
+		a, b := arg(0).(SliceV), arg(1).(SliceV)
+		return IntV{BVSub(a.Off, b.Off)}
+	case "senton", "recvon":
+		k := "send"
+		if id.Name == "recvon" {
+			k = "recv"
+		}
+		i := SignExtTo64(arg(0).(IntV).T, info.Types[call.Args[0]].Type)
+		ch := arg(1).(ChanV)
+		return BoolV{Eq(Select(env.st.get("ghost|"+k+".ch", SArr(SBV(64), SRef)), i), ch.Ref)}
+	case "wirelen":
+		return IntV{env.st.get("ghost|wire.len", SBV(64))}
 	case "nsent", "nrecv":
 		k := "send"
 		if id.Name == "nrecv" {
@@ -713,6 +755,57 @@ func (ex *Exec) evalSpecBody(stmts []ast.Stmt, info *types.Info, env *SpecEnv, p
 			return nil, false
 		}
 		return mergeSafe(c, thenV, elseV), true
+	case *ast.RangeStmt:
+		// for k := range a { if c { return false } }  ==  forall k in [0,len(a)): !c
+		if s.Value == nil && s.Key != nil && len(s.Body.List) == 1 {
+			ifs, ok := s.Body.List[0].(*ast.IfStmt)
+			kid, ok2 := s.Key.(*ast.Ident)
+			if ok && ok2 && ifs.Else == nil && ifs.Init == nil && len(ifs.Body.List) == 1 {
+				if ret, ok := ifs.Body.List[0].(*ast.ReturnStmt); ok && len(ret.Results) == 1 {
+					if tv, ok := info.Types[ret.Results[0]]; ok && tv.Value != nil && tv.Value.String() == "false" {
+						sl, ok := ex.evalSpec(s.X, info, env, pc).(SliceV)
+						if !ok {
+							return nil, false
+						}
+						skolem := env.pol > 0
+						var k *Term
+						if skolem {
+							k = Fresh("q."+kid.Name, SBV(64))
+						} else {
+							k = BoundVar("b."+kid.Name, SBV(64))
+						}
+						e2 := *env
+						e2.vars = map[types.Object]Value{}
+						for a, b := range env.vars {
+							e2.vars[a] = b
+						}
+						e2.vars[info.Defs[kid]] = IntV{k}
+						e2.pol = -env.pol
+						c := ex.evalSpecBool(ifs.Cond, info, &e2, pc)
+						inner := Implies(And(BVSle(BV(0, 64), k), BVSlt(k, sl.Len)), Not(c))
+						var q *Term
+						if skolem {
+							q = inner
+						} else {
+							q = Quant("forall", k, inner)
+							if env.pol != 0 {
+								instQuant[q.id] = true
+							}
+						}
+						rest, ok := ex.evalSpecBody(stmts[1:], info, env, pc)
+						if !ok {
+							return nil, false
+						}
+						rb, ok := rest.(BoolV)
+						if !ok {
+							return nil, false
+						}
+						return BoolV{And(q, rb.T)}, true
+					}
+				}
+			}
+		}
+		return nil, false
 	case *ast.AssignStmt:
 		// x := e  (single definition of a local helper value)
 		if s.Tok == token.DEFINE && len(s.Lhs) == 1 && len(s.Rhs) == 1 {
@@ -768,7 +861,11 @@ func (ex *Exec) specQuant(kind string, call *ast.CallExpr, info *types.Info, env
 	if skolem {
 		return BoolV{inner}
 	}
-	return BoolV{Quant(kind, k, inner)}
+	q := Quant(kind, k, inner)
+	if kind == "forall" && env.pol != 0 {
+		instQuant[q.id] = true
+	}
+	return BoolV{q}
 }
 
 type quantUse struct {
@@ -790,7 +887,11 @@ func (ex *Exec) seqEq(a, b SliceV, env *SpecEnv, pc *Term) *Term {
 	if env.pol > 0 {
 		return And(Eq(a.Len, b.Len), inner)
 	}
-	return And(Eq(a.Len, b.Len), Quant("forall", k, inner))
+	q := Quant("forall", k, inner)
+	if env.pol != 0 {
+		instQuant[q.id] = true
+	}
+	return And(Eq(a.Len, b.Len), q)
 }
 
 // ---------------------------------------------------------------- modular call
